@@ -22,7 +22,7 @@ WS = z3.Star(z3.Union(z3.Re(' '), z3.Re('\t'), z3.Re('\n')))
 INT_RE = z3.Concat(WS, z3.Option(z3.Union(z3.Re('+'), z3.Re('-'))), DIGITS, WS)
 
 BUILTIN_CLASSES = {'int': 'int', 'str': 'str', 'float': 'float', 'bool': 'bool', 'list': 'list', 'tuple': 'tuple',
-                   'dict': 'dict'}
+                   'dict': 'dict', 'object': 'object'}
 
 
 def is_term(v):
@@ -503,8 +503,9 @@ class ExprMixin:
             else:
                 a, b = self.need_term(a), self.need_term(b)
                 # identity: exact for None / bools / objects; for other immutable scalars `is` is not used in the subset
-                if feasible(st, z3.And(z3.Not(is_('NoneV', a)), z3.Not(is_('NoneV', b)), z3.Not(is_('Obj', a)),
-                                       z3.Not(is_('Bool', a)), z3.Not(is_('Cls', a)))):
+                def ident_ok(x):     # values whose identity coincides with equality of the V term
+                    return z3.Or(is_('NoneV', x), is_('Obj', x), is_('Bool', x), is_('Cls', x))
+                if feasible(st, z3.And(z3.Not(ident_ok(a)), z3.Not(ident_ok(b)))):
                     raise NotFormed('`is` on values other than None / bool / objects / classes')
                 r = a == b
             return [(st, V.Bool(z3.Not(r) if neg else r))]
